@@ -318,6 +318,57 @@ def do_dochist(d):
     return out
 
 
+def index_form(form, i):
+    """the same index in the shapes in which callers hand it to the handler API (HDF5 table rows, numpy scalars, floats)"""
+    import numpy
+    return {"int": int, "numpy.int64": numpy.int64, "numpy.int32": numpy.int32, "float": float, "numpy.float64": numpy.float64,
+            "numpy.float32": numpy.float32}[form](i)
+
+
+def do_builder_api(q):
+    """NetworkBuilder driven directly through the handler API (what NeuroMLHdf5Parser / NeuroMLXMLParser do), the cell indices
+    given in form q["form"]; then what the accessors of the built objects say"""
+    from neuroml.hdf5.NetworkBuilder import NetworkBuilder
+    out = {"connections": None, "inputs": None, "summary": None, "error": None}
+    sink = io.StringIO()
+    try:
+        with contextlib.redirect_stdout(sink):
+            b = NetworkBuilder()
+            b.handle_document_start("doc", None)
+            b.handle_network("net", None)
+            b.handle_population("plain", "iaf", 50)
+            b.handle_population("listed", "iaf", 50)
+            for i in range(50):
+                b.handle_location(i, "listed", "iaf", float(i), 0.0, 0.0)
+            f = q["form"]
+            for pid, pre, post in (("pp", "plain", "plain"), ("ll", "listed", "listed"), ("pl", "plain", "listed")):
+                b.handle_projection(pid, pre, post, "syn")
+                for c in q["conns"]:
+                    kw = {}
+                    if c.get("wd"):
+                        kw = {"delay": c["delay"], "weight": c["weight"]}
+                    b.handle_connection(pid, c["id"], pre, post, "syn", index_form(f, c["pre"]), index_form(f, c["post"]),
+                                        preSegId=c["pre_seg"], preFract=c["pre_fract"], postSegId=c["post_seg"], postFract=c["post_fract"], **kw)
+            for lid, pop in (("il_plain", "plain"), ("il_listed", "listed")):
+                b.handle_input_list(lid, pop, "pg", len(q["inputs"]))
+                for i in q["inputs"]:
+                    b.handle_single_input(lid, i["id"], index_form(f, i["cell"]), segId=i["seg"], fract=i["fract"], weight=i["weight"])
+            doc = b.get_nml_doc()
+            conns, inputs = [], []
+            for pr in doc.networks[0].projections:
+                for c in list(pr.connections) + list(pr.connection_wds):
+                    conns.append([pr.id, int(c.id), enc(c.get_pre_cell_id()), enc(c.get_post_cell_id()), c.get_pre_segment_id(),
+                                  float(c.get_pre_fraction_along()), c.get_post_segment_id(), float(c.get_post_fraction_along())])
+            for il in doc.networks[0].input_lists:
+                for i in list(il.input) + list(il.input_ws):
+                    inputs.append([il.id, int(i.id), enc(i.get_target_cell_id()), i.get_segment_id(), float(i.get_fraction_along())])
+            out["connections"], out["inputs"] = conns, inputs
+            out["summary"] = doc.summary()
+    except BaseException as e:  # noqa: BLE001
+        out["error"] = "%s: %s" % (type(e).__name__, str(e)[:300])
+    return out
+
+
 class _C:
     pass
 
@@ -341,7 +392,8 @@ def main():
                "docs": [do_doc(d, tmp) for d in req.get("docs", [])],
                "hsfi": [do_hsfi(c) for c in req.get("hsfi", [])],
                "accseq": [do_accseq(q) for q in req.get("accseq", [])],
-               "dochist": [do_dochist(d) for d in req.get("dochist", [])]}
+               "dochist": [do_dochist(d) for d in req.get("dochist", [])],
+               "builder_api": [do_builder_api(q) for q in req.get("builder_api", [])]}
     finally:
         shutil.rmtree(tmp, ignore_errors=True)
     sys.stdout.write("\n" + json.dumps(res) + "\n")
